@@ -32,8 +32,9 @@ func TestMain(m *testing.M) {
 var errBoom = errors.New("boom")
 
 type wbeh struct {
-	short int  // bytes withheld (0 = full write)
-	fail  bool // return an error as well
+	short  int  // bytes withheld (0 = full write)
+	fail   bool // return an error as well
+	silent bool // a short write reported without an error (what io.Writer forbids and sloppy writers do all the same)
 }
 
 type wcall struct {
@@ -64,6 +65,9 @@ func (s script) render() string {
 		p := fmt.Sprintf("%s(%d)", k, c.size)
 		if c.beh.short > 0 {
 			p += fmt.Sprintf(" short-by-%d", c.beh.short)
+		}
+		if c.beh.silent {
+			p += " (without an error)"
 		}
 		if c.beh.fail {
 			p += " fails"
@@ -98,7 +102,7 @@ func (w *plainWriter) next(n int) (int, error) {
 	var err error
 	if b.fail {
 		err = errBoom
-	} else if k < n {
+	} else if k < n && !b.silent {
 		err = io.ErrShortWrite
 	}
 	return k, err
@@ -215,7 +219,7 @@ func runScript(s script) (string, outcome) {
 		var wantErr error
 		if c.beh.fail {
 			wantErr = errBoom
-		} else if wantN < c.size {
+		} else if wantN < c.size && !c.beh.silent {
 			wantErr = io.ErrShortWrite
 		}
 		if n != wantN || err != wantErr {
@@ -389,6 +393,7 @@ func genScript(t *rapid.T) script {
 		switch rapid.IntRange(0, 5).Draw(t, "behaviour") {
 		case 0:
 			c.beh.short = rapid.IntRange(1, 5).Draw(t, "shortBy")
+			c.beh.silent = rapid.IntRange(0, 2).Draw(t, "shortWithoutError") == 0
 		case 1:
 			c.beh.fail = true
 			c.beh.short = rapid.SampledFrom([]int{0, 1, 3, 1 << 20}).Draw(t, "failAfter")
